@@ -11,7 +11,7 @@ sys.path.insert(0, HERE)
 from lib import common  # noqa: E402
 
 LEVELS = {
-    "C01": "model_checking", "C02": "model_checking", "C03": "model_checking", "C04": "model_checking",
+    "C01": "model_checking", "C02": "model_checking", "C03": "model_checking", "C04": "exploration",
     "C05": "model_checking", "C06": "model_checking", "C07": "model_checking", "C08": "model_checking",
     "C09": "model_checking", "C10": "model_checking", "C11": "model_checking", "C12": "model_checking",
     "C13": "model_checking", "C14": "model_checking", "C15": "model_checking", "C16": "model_checking",
